@@ -203,6 +203,13 @@ func HandleSendInstantMsg(cc *hotline.ClientConn, t *hotline.Transaction) (res [
 	return append(res, cc.NewReply(t))
 }
 
+// targetsFileRoot reports whether a resolved path is the client's file root itself.  The root folder cannot be the
+// target of a file operation: the info fork, resource fork and partial-upload side files of a target live next to it,
+// which for the root means outside the file root.
+func targetsFileRoot(cc *hotline.ClientConn, fullPath string) bool {
+	return filepath.Clean(fullPath) == filepath.Clean(cc.FileRoot())
+}
+
 var fileTypeFLDR = [4]byte{0x66, 0x6c, 0x64, 0x72}
 
 func HandleGetFileInfo(cc *hotline.ClientConn, t *hotline.Transaction) (res []hotline.Transaction) {
@@ -211,6 +218,9 @@ func HandleGetFileInfo(cc *hotline.ClientConn, t *hotline.Transaction) (res []ho
 
 	fullFilePath, err := hotline.ReadPath(cc.FileRoot(), filePath, fileName)
 	if err != nil {
+		return res
+	}
+	if targetsFileRoot(cc, fullFilePath) {
 		return res
 	}
 
@@ -260,6 +270,9 @@ func HandleSetFileInfo(cc *hotline.ClientConn, t *hotline.Transaction) (res []ho
 
 	fullFilePath, err := hotline.ReadPath(cc.FileRoot(), filePath, fileName)
 	if err != nil {
+		return res
+	}
+	if targetsFileRoot(cc, fullFilePath) {
 		return res
 	}
 
@@ -353,6 +366,9 @@ func HandleDeleteFile(cc *hotline.ClientConn, t *hotline.Transaction) (res []hot
 	if err != nil {
 		return res
 	}
+	if targetsFileRoot(cc, fullFilePath) {
+		return res
+	}
 
 	hlFile, err := hotline.NewFileWrapper(cc.Server.FS, fullFilePath, 0)
 	if err != nil {
@@ -389,6 +405,9 @@ func HandleMoveFile(cc *hotline.ClientConn, t *hotline.Transaction) (res []hotli
 
 	filePath, err := hotline.ReadPath(cc.FileRoot(), t.GetField(hotline.FieldFilePath).Data, t.GetField(hotline.FieldFileName).Data)
 	if err != nil {
+		return res
+	}
+	if targetsFileRoot(cc, filePath) {
 		return res
 	}
 
@@ -1292,6 +1311,9 @@ func HandleDownloadFile(cc *hotline.ClientConn, t *hotline.Transaction) (res []h
 	if err != nil {
 		return res
 	}
+	if targetsFileRoot(cc, fullFilePath) {
+		return res
+	}
 
 	hlFile, err := hotline.NewFileWrapper(cc.Server.FS, fullFilePath, dataOffset)
 	if err != nil {
@@ -1342,6 +1364,9 @@ func HandleDownloadFolder(cc *hotline.ClientConn, t *hotline.Transaction) (res [
 
 	fullFilePath, err := hotline.ReadPath(cc.FileRoot(), t.GetField(hotline.FieldFilePath).Data, t.GetField(hotline.FieldFileName).Data)
 	if err != nil {
+		return nil
+	}
+	if targetsFileRoot(cc, fullFilePath) {
 		return nil
 	}
 
